@@ -52,7 +52,7 @@ CHECKS = {
                 text='Accept-iff-reference and error class for every single edit; an exception delivered into the decoder comes out as itself, never as a verdict; inverse/reference equality on the fault-free channel.',
                 note='Trusted: ref/base58.py (big-integer definition).'),
     'C11': dict(engine='CHAN', level='fault_enumeration', design='DESIGN.md §5 C11',
-                technique='deterministic simulation of a noisy channel: for each seeded segwit address every single substitution, sampled/exhaustive double substitutions, seeded triples/quadruples, case flips, truncations and extensions are injected between encoder and decoder',
+                technique='deterministic simulation of a noisy channel: for each seeded segwit address every single substitution, sampled/exhaustive double substitutions, seeded triples/quadruples, case flips, truncations and extensions are injected between encoder and decoder; an asynchronous exception is delivered at a planned line event inside the decoder',
                 text='Detection of <=4 substitutions and mixed case, accept-iff-BIP173-reference for length-changing edits, never another program.',
                 note='Trusted: ref/bech32.py (own BIP173 implementation, validated on the BIP vectors).'),
     'C13': dict(engine='SIGN', level='exploration', design='DESIGN.md §5 C13',
